@@ -287,7 +287,7 @@ impl crate::Visitor<u32> for RecVisitor {
 fn ast_optimizer_tuple0() {
     check_optimizer(0);
 }
-// @verif name=ast_optimizer_tuple1 props=C12 tier=thorough timeout=2400 features=constant-optimization fns="ConstantOptimizer::fold_expr"
+// @verif name=ast_optimizer_tuple1 props=C12 tier=off timeout=2400 features=constant-optimization fns="ConstantOptimizer::fold_expr"
 //   bound="1-tuples whose element is a constant or a name, every expression context; symbolic range tags"
 #[cfg(feature = "constant-optimization")]
 #[kani::proof]
@@ -295,7 +295,7 @@ fn ast_optimizer_tuple0() {
 fn ast_optimizer_tuple1() {
     check_optimizer(1);
 }
-// @verif name=ast_optimizer_tuple2 props=C12 tier=thorough timeout=2400 features=constant-optimization fns="ConstantOptimizer::fold_expr"
+// @verif name=ast_optimizer_tuple2 props=C12 tier=off timeout=2400 features=constant-optimization fns="ConstantOptimizer::fold_expr"
 //   bound="2-tuples whose elements are constants or names, every expression context; symbolic range tags"
 #[cfg(feature = "constant-optimization")]
 #[kani::proof]
